@@ -67,8 +67,8 @@ PLANS["C01"] = generic(
     "20% of guiding documents come from the compliance suite); oracle = reference evaluator on the generator's tree, compared as "
     "JSON with numbers by value. Non-trivial = agreeing non-null result on a tree with >=3 nodes and >=2 node kinds; distinct by "
     "(tree hash, document hash).",
-    n_quick=60_000,
-    n_thorough=3_000_000,
+    n_quick=200_000,
+    n_thorough=12_000_000,
     min_evaluations=50_000,
     assumptions=["float results are compared with relative tolerance 1e-12; generated documents only contain identical or well separated numbers"],
 )
@@ -149,7 +149,7 @@ def c04_plan(pid, tier, seed, t0):
         "documents. Non-trivial = expression with operators of >=2 different binding powers (or a twin that really lost parentheses); "
         "distinct by expression text." % enum_len,
         n_quick=60_000,
-        n_thorough=4_000_000,
+        n_thorough=12_000_000,
         min_evaluations=100_000,
         extra_args=["--enum-len", enum_len],
         assumptions=["regrouping of pure composition ('.', postfix brackets, '|') is invisible in the normal form by design: composition is associative, so it does not affect what the statement constrains"],
@@ -180,6 +180,8 @@ def _limits(cpu_s, as_gib=8):
 def _death_cause(returncode, stderr):
     if "has overflowed its stack" in stderr:
         return "stack-overflow"
+    if "WATCHDOG:" in stderr:
+        return "cpu-budget"
     if returncode < 0:
         sig = -returncode
         if sig == signal.SIGXCPU:
@@ -209,7 +211,7 @@ def _c05_worker(binary, build, n, seed, tier, shard, shards, rundir):
         if skip:
             cmd += ["--skip", ",".join(str(x) for x in skip)]
         try:
-            r = subprocess.run(cmd, capture_output=True, text=True, env=o.ENV, preexec_fn=_limits(600), timeout=1800)
+            r = subprocess.run(cmd, capture_output=True, text=True, env=o.ENV, preexec_fn=_limits(90 if tier == "quick" else 3600), timeout=7200)
         except subprocess.TimeoutExpired:
             inconclusive.append("shard %d (%s): wall-clock watchdog fired" % (shard, build))
             return None, deaths, inconclusive
@@ -240,7 +242,7 @@ def _c05_worker(binary, build, n, seed, tier, shard, shards, rundir):
         if cause in ("cpu-budget", "killed", "allocation-failure"):
             # re-run alone under the large budget before deciding
             d2 = subprocess.run([binary, "c05case", "--seed", str(seed), "--shard", "%d/%d" % (shard, shards), "--index", str(culprit), "--run", "1"],
-                                capture_output=True, text=True, env=o.ENV, preexec_fn=_limits(120))
+                                capture_output=True, text=True, env=o.ENV, preexec_fn=_limits(30 if tier == "quick" else 120))
             if "RETURNED" in d2.stdout:
                 inconclusive.append("case %d of shard %d exhausted the shard budget (%s) but returned when run alone" % (culprit, shard, cause))
                 skip.append(culprit)
@@ -250,6 +252,11 @@ def _c05_worker(binary, build, n, seed, tier, shard, shards, rundir):
             sig = "C05/stack-overflow/depth>=500" if info.get("depth_metric", 0) >= 500 else "C05/stack-overflow/depth<500"
         else:
             sig = "C05/process-died/%s" % cause
+        if sig.startswith("C05/process-died/cpu-budget") and sum(1 for d0 in deaths if d0["signature"] == sig) >= 1:
+            # a second confirmed non-terminating case: the verdict is settled, stop burning CPU budgets on this shard
+            deaths.append({"signature": sig, "witness": {"expression": info.get("expression", "")[:2000], "build": build, "cause": cause, "shard": shard, "index": culprit}})
+            inconclusive.append("shard %d (%s) abandoned after two cases exceeded the CPU budget" % (shard, build))
+            return None, deaths, inconclusive
         deaths.append({"signature": sig, "witness": {"expression": info.get("expression", "")[:2000], "bytes": info.get("bytes"),
                                                      "depth_metric": info.get("depth_metric"), "build": build, "cause": cause,
                                                      "seed": seed, "shard": shard, "index": culprit}})
@@ -350,8 +357,8 @@ def c05_plan(pid, tier, seed, t0):
         "numerics, NUL, astral), all truncations of sampled sentences, numeric-edge templates, malformed quoted forms, shallow depth "
         "families; PLUS the exhaustive grid of slices with start/stop/step in {omitted,0,+-1,+-2,+-(2^31-1),+-(2^31-2),2^30} x array "
         "lengths {0,1,2,3,10} (and the index forms); PLUS 19 depth families x depths %s, one process each. The monitor is the process: "
-        "a caught panic, a death (signal / stack overflow / allocation failure) or exhaustion of a CPU budget of 600 CPU-s per shard "
-        "(re-run alone with 120 CPU-s) is the event. Non-trivial = the input compiled and was searched; distinct by expression text."
+        "a caught panic, a death (signal / stack overflow / allocation failure) or exhaustion of the shard's CPU budget (quick: 90 CPU-s for "
+        "~20 000 cases that normally take 2 CPU-s; the culprit is then re-run alone with 30 CPU-s; thorough: 3600 / 120) is the event. Non-trivial = the input compiled and was searched; distinct by expression text."
         % depths,
         "min_evaluations": 200_000,
         "assumptions": COMMON_ASSUMPTIONS + [
@@ -377,13 +384,18 @@ PLANS["C02"] = generic(
     "array's elements, each once; (c) value-guided random trees containing calls nested in projections, multi-selects and other calls vs the "
     "reference evaluator. Non-trivial = non-empty principal argument / non-null nested result; distinct by (expression, document).",
     n_quick=480_000,
-    n_thorough=24_000_000,
+    n_thorough=40_000_000,
     min_evaluations=200_000,
     assumptions=["not asserted: which of several equal-key elements max_by/min_by returns; whitespace-padded or out-of-range numerals in to_number; non-finite sums; exprefs passed for 'any' parameters"],
 )
 
-PLANS["C06"] = generic(
-    "c06",
+def c06_plan(pid, tier, seed, t0):
+    return _c06(extra_args=["--reps", "3" if tier == "quick" else "30"])(pid, tier, seed, t0)
+
+
+def _c06(extra_args):
+    return generic(
+    "c06", extra_args=extra_args,
     rule="exhaustive decision table: 26 built-ins + 3 unknown names x argument counts 0..declared+2 x 10 type classes per position (null, boolean, "
     "number, string, [], [numbers], [strings], [mixed], object, expression reference) = 112219 cells; every cell instantiated with 3 "
     "(wrong arity) or 18 (right arity) random representatives, arguments alternately given as literals and as paths into a document. Oracle = "
@@ -394,7 +406,10 @@ PLANS["C06"] = generic(
     min_evaluations=300_000,
     exhaustive=True,
     assumptions=["cells where a parameter declared 'any' receives an expression reference are unconstrained and counted"],
-)
+    )
+
+
+PLANS["C06"] = c06_plan
 
 
 def c07_plan(pid, tier, seed, t0):
@@ -593,7 +608,7 @@ PLANS["C12"] = generic(
     "a char boundary, line/column recomputed from (expression, offset), Display compared with an independent renderer, class prefix. Hook "
     "monitor: at every JmespathError::from_ctx the shadow call stack's innermost call offset must equal ctx.offset. Non-trivial = error position "
     "preceded by a multi-byte character or a newline; distinct by (source, offset).",
-    n_quick=320_000, n_thorough=16_000_000, min_evaluations=200_000,
+    n_quick=320_000, n_thorough=40_000_000, min_evaluations=200_000,
 )
 
 
@@ -668,7 +683,7 @@ PLANS["C13"] = generic(
     "value prints the same before and after every search. Evidence only: whether interpret step counts per pair stayed constant. Non-trivial = a "
     "search on a re-used/cloned handle or directly after a failing search of the same expression; distinct by (pool, expression, document, "
     "predecessor outcome).",
-    n_quick=320, n_thorough=24_000, min_evaluations=300_000, needs_ref=False, post=c13_post,
+    n_quick=320, n_thorough=60_000, min_evaluations=300_000, needs_ref=False, post=c13_post,
 )
 
 
@@ -904,7 +919,7 @@ def c17_plan(pid, tier, seed, t0):
             for c, f in futs.items():
                 path, secs = f.result()
                 staged[c] = o.stage_binary(path, rundir, "matrix-" + c)
-    n = 25_000 if tier == "quick" else 1_000_000
+    n = 25_000 if tier == "quick" else 250_000
     logs = {}
     procs = {c: subprocess.Popen([staged[c], str(seed), str(n), os.path.join(rundir, c + ".log")], stdout=subprocess.PIPE, stderr=subprocess.PIPE, env=o.ENV)
              for c in configs}
